@@ -156,10 +156,19 @@ def rule_pass(ctx):
     ok = len(rets) == 1 and [fact_str(c).replace(" ", "") for c in (conditions_to(fn["body"], rets[0]) or [])] == ["(letFunction|CustomTemplate=cfg.definition_type())"]
     ctx.check(R, "find_signal_assignments/only-functions-and-custom-templates-skipped", ok, "early returns: %s" % [facts_str(conditions_to(fn["body"], r) or []) for r in rets], site(SA, fn))
     loops = [l for l in walk(fn["body"]) if l["k"] == "For"]
-    its = [render(strip(l["iter"])).replace(" ", "") for l in loops]
-    ctx.check(R, "find_signal_assignments/every-statement-of-every-block", ("cfg.iter()" in its or "cfg" in its) and ("basic_block.iter()" in its or "basic_block" in its), "loops over %s" % its, site(SA, fn))
+    import sgrep
+
+    # the early return of the skip test is the only exit allowed: check the traversal on the body without it
+    import copy
+
+    fn_nr = copy.deepcopy(fn)
+    for n_ in walk(fn_nr["body"]):
+        if n_["k"] == "If" and any(x["k"] == "Return" for x in walk(n_["then"])) and "definition_type" in render(n_["cond"]):
+            n_["then"] = {"k": "Block", "line": 0, "stmts": []}
+    okt, how = sgrep.visits_all_statements(fn_nr, "visit_statement")
+    ctx.check(R, "find_signal_assignments/every-statement-of-every-block", okt, how, site(SA, fn))
     vis = list(calls(fn["body"], "visit_statement"))
-    okv = len(vis) == 1 and all(c[0] == "loop" or "definition_type" in fact_str(c) for c in (conditions_to(fn["body"], vis[0]) or []))
+    okv = len(vis) == 1 and all(c[0] in ("loop", "closure") or "definition_type" in fact_str(c) for c in (conditions_to(fn["body"], vis[0]) or []))
     ctx.check(R, "find_signal_assignments/visit-unconditional", okv, "", site(SA, fn))
     # reports
     rl = [l for l in loops if "get_assignments()" in render(l["iter"])]
